@@ -870,6 +870,13 @@ class RuntimeEngine:
 
     def dynapyt_decorator(self, ast_arg, iid_arg):
         def dynapyt_decorator_wrapper(func):
+            if isinstance(func, (staticmethod, classmethod)):
+                # keep the descriptor: wrap the function it holds
+                return type(func)(dynapyt_decorator_wrapper(func.__func__))
+            if isinstance(func, type) or not callable(func):
+                # classes and non-callable results of a decorator (e.g. property) cannot be replaced by a function
+                return func
+
             @wraps(func)
             def wrapper(*args, **kwargs):
                 self._enter_decorator_(ast_arg, iid_arg, func.__name__, args, kwargs)
